@@ -79,6 +79,45 @@ PROPS["C10"] = {
 }
 
 PROPS["DEVTEST"] = {"suites": [("comp_dev", "gen_cases")], "rule": "dev model bring-up"}
+PROPS["C07"] = {
+    "suites": [("comp_dev", "gen_c07")],
+    "rule": "random driver definitions (1-3 groups, all five vector kinds, three switch rules, printf and sexagesimal formats, disabled groups/vectors/elements, BLOBs set/unset, "
+            "duplicate property names) x states reached by bounded random histories (assignments, state changes, enable/disable, client writes) x a getProperties request for every existing "
+            "property name, absent, empty and unknown names; every message emitted in any operation is serialised and re-parsed by the real library; distinct by (device state, operation list)",
+    "trusted_base": ["messages observed through a recording router object"],
+    "assumptions": ["well-formed definitions (Spec.Dev.WF); BLOB values carry a format string (devFormats/opFormats: extra hypotheses of C07_emitted_valid)"],
+}
+PROPS["C12"] = {
+    "suites": [("comp_dev", "gen_c12"), ("comp_router", "gen_c04")],
+    "rule": "driver level: the fault catalogue (unknown device/property/element, every vector kind mismatch incl. light targets, invalid switch/number/base64 text, wrong/missing/odd BLOB "
+            "sizes, no children, duplicate children, valid+invalid+valid children, message kinds a client should not send) against one property of every kind, each fault between valid "
+            "messages of a session, with and without handlers; plus random definitions with 70% hostile traffic; distinct by (device state, operation list)",
+    "trusted_base": ["messages rejected by the message constructors never reach a driver (they are the conn component's subject)"],
+    "assumptions": ["driver definitions are well-formed (Spec.Dev.WF: valid states/permissions/rules, number formats of C10's family, distinct property names)"],
+}
+PROPS["C14"] = {
+    "suites": [("comp_dev", "gen_c14")],
+    "rule": "handler configurations 0-2 Write and 0-2 Change handlers per element, plain and coroutine, vetoing or not, on elements of every kind; write sequences with changing and "
+            "unchanged values via client message, set_value() and direct assignment, on enabled and disabled properties; distinct by (device state, operation list)",
+    "trusted_base": ["instrumented handlers record (id, event, payload, element._value); coroutine handlers run on a real asyncio loop after the operation"],
+    "assumptions": ["what a coroutine handler sees when it eventually runs is not part of the contract; Read handlers are modelled by their effect (refresh) only"],
+}
+PROPS["C15"] = {
+    "suites": [("comp_cli", "gen_c15")],
+    "rule": "random streams of def*/set*/delProperty/message/ping/getProperties/new*/enableBLOB over 3 device x 3 property x 4 element names and all five kinds (redefinition, partial "
+            "updates, kind mismatches, unknown targets, empty and absent BLOB payloads, duplicate children, whole-device deletion; 5% ill-formed BLOB children as a separate stream); "
+            "distinct by message list",
+    "trusted_base": ["the mirror is read through the public API (list_devices, device.vectors, vector.elements, .state/.value/.label/.group/...)"],
+    "assumptions": ["well-formed stream: BLOB payloads decodable with consistent size (Spec.Cli.streamOk); ill-formed ones are compared with the model only"],
+}
+PROPS["C16"] = {
+    "suites": [("comp_cli", "gen_c16")],
+    "rule": "streams as in C15 interleaved with onevent/rmonevent (by id, by any subset of criteria incl. callback identity with bound methods, remove-all) at arbitrary points; callbacks plain, "
+            "coroutine, raising; exhaustive filter combinations {absent, matching, non-matching}^3 x 4 event types on a fixed stream; a catch-all callback's log feeds the chain oracle; "
+            "distinct by operation list",
+    "trusted_base": ["callbacks are bound methods of recorder objects; coroutine callbacks run on a real asyncio loop"],
+    "assumptions": ["removal happens between messages, not from inside a callback (the quantifier's reading)"],
+}
 PROPS["CLITEST"] = {"suites": [("comp_cli", "gen_c15"), ("comp_cli", "gen_c16")], "rule": "cli bring-up"}
 PROPS["C12TEST"] = {"suites": [("comp_dev", "gen_c12")], "rule": "c12 bring-up"}
 
@@ -162,5 +201,47 @@ MANIFEST_TEXT = {
                 "correspondence is not proved to satisfy Arith.Accurate); formats outside %[flags][width][.prec]{d,f} and %w.{3,5,6,8,9}m are outside the model; values beyond binary64's "
                 "normal range are excluded.",
         "technique": "Lean 4 proofs over exact rationals with an abstract rounding function + exact-ratio differential correspondence",
+    },
+    "C12": {
+        "text": "Kernel-checked theorems (lean/Indi/Properties/DevA.lean, C12.lean; 1130 lines of lemmas): for every well-formed driver state and EVERY client message: C12_no_raise "
+                "(message_from_client raises nothing), C12_frame (only elements validly named by the message's children - plus switch siblings under the rule - change; no flag, state or other "
+                "property changes), step_wf (every operation preserves well-formedness), C12_session (so after any hostile prefix later messages are handled normally). Router part: the "
+                "model of process_message is total (C04/C05). Correspondence: real Driver instances against the systematic fault catalogue; oracle c12Holds in Lean on observed before/after.",
+        "note": "Partial: the connection level (TCP/TTY handlers stay registered and open) is explored by C18's component, not proved; user handler bodies are not modelled. "
+                "Trusted: Lean kernel + standard axioms; harness.",
+        "technique": "Lean 4 invariant (well-formedness) + totality/frame theorems over all messages + fault-catalogue correspondence",
+    },
+    "C14": {
+        "text": "Kernel-checked theorems C14_write, C14_assign (lean/Indi/Properties/DevA.lean): for every device, element, handler configuration and value, an accepted set_value()/assignment "
+                "produces exactly the trace of the contract Spec.Dev.writeContract (each Write handler once with the requested value - plain ones seeing the old value, coroutines as tasks; "
+                "veto => nothing stored/published; else stored, one update iff the property is enabled, Change handlers once with (old,new) iff changed, numerically for numbers, by content "
+                "for BLOBs). Correspondence on real drivers with instrumented handlers on an asyncio loop; oracle c14Holds in Lean.",
+        "note": "Partial: task start order is asyncio's FIFO (observed, not proved); Read handlers are modelled by their refresh effect. Trusted: Lean kernel + standard axioms; harness.",
+        "technique": "Lean 4 trace-equality theorem against a contract generator + instrumented-handler correspondence",
+    },
+    "C15": {
+        "text": "Kernel-checked theorems (lean/Indi/Properties/C15.lean): C15_step (on every mirror and every well-formed message the model of process_message equals the reference interpreter "
+                "refStep of the INDI client rules and raises nothing), C15_stream (lifted to every stream by induction), MirrorWf_step. Correspondence on a real BaseClient through the public API; "
+                "oracle c15Holds (refStep) in Lean.",
+        "note": "Wire level (foreign spellings, fragmentation) is C02/C03's subject and composed in the sys component; ill-formed BLOB children are outside C15's streams. Trusted: kernel, harness.",
+        "technique": "Lean 4 functional refinement to a reference interpreter + differential correspondence",
+    },
+    "C16": {
+        "text": "Kernel-checked theorems (lean/Indi/Properties/C15.lean): C16_events (events = the changes the message makes), C16_deliveries / C16_only_registered / C16_removed (each callback "
+                "exactly for the events matching its four filters while registered), C16_changed_only, C16_chain + C16_old_is_previous_new (for every element the last announced value is the "
+                "current value, each update event's old value is the previously announced one: the unbroken chain), for all streams and registration schedules. Correspondence with bound-method, "
+                "coroutine and raising callbacks; oracles c16Holds (registry computed by the spec from the onevent/rmonevent history) and chainInv on the catch-all log, in Lean.",
+        "note": "Removing a callback from inside a callback is outside the quantifier (DESIGN section 9). Trusted: kernel, harness.",
+        "technique": "Lean 4 invariant over event logs + filter semantics theorems + differential correspondence",
+    },
+    "C07": {
+        "text": "Kernel-checked theorems (lean/Indi/Properties/DevB.lean; 2400 lines of lemmas): C07_response (for every well-formed driver state and every getProperties request the "
+                "definitions published are exactly one per enabled, wanted property in definition order - listing the enabled elements, current values, numbers as the format renders them, "
+                "and the metadata - and nothing else but delProperty notices for disabled properties), C07_emitted_valid (every message emitted by ANY operation is read back unchanged up to "
+                "normalisation by the model of the library's parser over the regenerated class table; number text validity is proved, not assumed). Correspondence on real drivers; oracles "
+                "c07Holds in Lean and the real parser's re-read compared by norm equality in Lean.",
+        "note": "C07_emitted_valid carries two extra hypotheses found by the proof attempt: stored and incoming BLOB values have a format string (values.BLOB(b, None) makes the driver emit a "
+                "oneBLOB its own parser rejects; recorded in DESIGN.md as usage outside the property). The XML character level is C03's subject. Trusted: kernel, translator, harness.",
+        "technique": "Lean 4 theorems over the driver model and the regenerated class table + differential correspondence with re-parse by the real library",
     },
 }
